@@ -287,33 +287,7 @@ pub mod restrictions {
                 return Ok(());
             }
 
-            let value = self.parse::<i32>()?;
-
-            if let Some(min_inclusive) = restrictions.min_inclusive {
-                if value < min_inclusive {
-                    return Err(SoapError::Restriction("minInclusive restriction not met".to_string()));
-                }
-            }
-
-            if let Some(max_inclusive) = restrictions.max_inclusive {
-                if max_inclusive < value {
-                    return Err(SoapError::Restriction("maxInclusive restriction not met".to_string()));
-                }
-            }
-
-            if let Some(min_exclusive) = restrictions.min_exclusive {
-                if value <= min_exclusive {
-                    return Err(SoapError::Restriction("minExclusive restriction not met".to_string()));
-                }
-            }
-
-            if let Some(max_exclusive) = restrictions.max_exclusive {
-                if max_exclusive <= value {
-                    return Err(SoapError::Restriction("maxExclusive restriction not met".to_string()));
-                }
-            }
-
-            Ok(())
+            check_bounds(self.parse::<i128>()?, &restrictions)
         }
     }
 }
